@@ -554,6 +554,8 @@ func (in *Interp) callBuiltin(caller *frame, callpos token.Pos, fn *ssa.Builtin,
 func (in *Interp) appendSlice(fr *frame, xs, ys []value, elemT types.Type) []value {
 	n := len(xs) + len(ys)
 	if n <= cap(xs) {
+		// memmove semantics: the source may overlap the destination
+		ys = append([]value(nil), ys...)
 		out := xs[:n]
 		for i, y := range ys {
 			out[len(xs)+i] = copyVal(y)
